@@ -19,6 +19,10 @@ TNext ==
    /\ LET ev == TraceLog[l] IN
       IF ev.e = "Reset" THEN sync' = TRUE
       ELSE IF ev.e = "Fault" THEN Flag(l, <<"fault">>, [kind |-> ev.kind, where |-> ev.where]) /\ sync' = TRUE
+      \* a message of gigabytes, zero between a head (multiple of four bytes) and a tail: judged by the sparse form of the definition
+      ELSE IF ev.e = "CrcBig" THEN
+           LET exp == [ret |-> Sparse32(ev.seed, ev.head, ev.nzh, ev.nzl, ev.tail)] mm == Mismatch(ev, exp)
+           IN IF mm # {} THEN Flag(l, SetToSeq(mm), exp) /\ sync' = TRUE ELSE sync' = TRUE
       ELSE LET exp == [ret |-> Def(ev.fn, ev.seed, ev.data), chunked |-> Chunked(ev)]
                mm == Mismatch(ev, exp)
            IN IF mm # {} THEN Flag(l, SetToSeq(mm), exp) /\ sync' = TRUE ELSE sync' = TRUE
